@@ -6,6 +6,7 @@
 set -u
 VERIF="$(cd "$(dirname "$0")" && pwd)"
 SPEC="$1"; IDS="$2"; TIER="${3:-quick}"
+case "$SPEC" in rev:*) ;; *) SPEC="$(realpath "$SPEC")";; esac
 NAME="$(basename "$SPEC" | tr -c 'A-Za-z0-9._\n-' '_')"
 SCRATCH="/var/tmp/fml-mut-$NAME-$$"
 rm -rf "$SCRATCH"; mkdir -p "$SCRATCH"
